@@ -128,7 +128,27 @@ impl Check for DefCheck {
 		let mut ratio = 0.0;
 		let vs = meng::check_defs(case, &outs, stats, &mut ratio);
 		stats.maximum(&case.sut, ratio);
-		vs.into_iter().filter(|v| v.property == self.id).collect()
+		let mut vs: Vec<Violation> = vs.into_iter().filter(|v| v.property == self.id).collect();
+		// second replica: built from element 0 and fed from element 1 on (the construction value is the prehistory whether
+		// or not it is delivered once more); the warm-up region is where the two can differ
+		let m = case.stream.len().min(3 * n as usize + 50);
+		// (not the reversal detectors: they number positions from the first delivered value and rely on the API's protocol -
+		// "initial value = simply first input value", which is then delivered - so they never see a stream that does not
+		// start with their construction value)
+		if vs.is_empty() && m >= 2 && !case.sut.contains("Reversal") {
+			let mut sub = case.clone();
+			sub.stream.truncate(m);
+			stats.fault("first_tick_not_redelivered");
+			match meng::run_a_no_refeed(&info, &sub.stream) {
+				Ok(o2) => {
+					stats.ticks += o2.len() as u64;
+					let mut r2 = 0.0;
+					vs.extend(meng::check_defs_from(&sub, &o2, stats, &mut r2, true).into_iter().filter(|v| v.property == self.id));
+				}
+				Err((step, msg)) => vs.push(Violation::new(prop, &case.sut, "panic_instead_of_value", step.min(m), format!("no value returned (instance fed from element 1 on): {msg}")).tag("length", n)),
+			}
+		}
+		vs
 	}
 	fn shrink(&self, case: &MCase) -> Vec<MCase> {
 		meng::shrink_mcase(case, 1)
